@@ -1,2 +1,136 @@
-(** placeholder, filled below *)
-From Qib Require Export TN.TNCheck.
+(** C08 core: decidable form of the invariant, preservation along arbitrary operation
+    sequences, counts. *)
+From Qib Require Export TN.TNConsistent.
+From Coq Require Import Permutation.
+Local Open Scope Z_scope.
+
+(* ------------------------------------------------------------------ the invariant as a boolean *)
+Lemma legs_dims_In bid bids : forall (shp : list nat) ax d, nth_error bids ax = Some bid -> nth_error shp ax = Some d ->
+  In d (map snd (filter (fun p => Z.eqb (fst p) bid) (combine bids shp))).
+Proof.
+  induction bids as [|b r IH]; intros [|s shp] [|ax] d H1 H2; cbn in *; try discriminate.
+  - injection H1 as ->. injection H2 as ->. rewrite Z.eqb_refl. left. reflexivity.
+  - destruct (Z.eqb b bid); [right|]; eapply IH; eauto.
+Qed.
+
+Lemma all_eq_nat_spec l x y : all_eq_nat l = true -> In x l -> In y l -> x = y.
+Proof.
+  destruct l as [|z l]; [intros _ []|]. cbn. intros H Hx Hy. rewrite forallb_forall in H.
+  assert (A : forall w, In w (z :: l) -> w = z).
+  { intros w [->|Hw]; [reflexivity|]. symmetry. apply Nat.eqb_eq. apply H. exact Hw. }
+  rewrite (A x Hx), (A y Hy). reflexivity.
+Qed.
+
+Theorem wf_b_WF n : wf_b n = true -> WF n.
+Proof.
+  unfold wf_b. rewrite !andb_true_iff. intros [[[[[[A1 A2] A3] A4] A5] A6] A7].
+  apply znodupb_NoDup in A1, A2. apply dhas_In in A3.
+  rewrite forallb_forall in A4, A5, A6, A7.
+  split; [|assumption]. constructor; try assumption.
+  - intros k t Hin. specialize (A4 (k, t) Hin). cbn [fst snd] in A4. rewrite !andb_true_iff in A4.
+    destruct A4 as [[B1 B2] _]. apply Z.eqb_eq in B1. apply Nat.eqb_eq in B2. auto.
+  - intros k b Hin. specialize (A5 (k, b) Hin). cbn [fst snd] in A5. rewrite !andb_true_iff in A5.
+    destruct A5 as [[B1 B2] _]. apply Z.eqb_eq in B1. apply Nat.leb_le in B2. auto.
+  - intros k kb. unfold cntT, cntB.
+    destruct (dget k (tensors n)) as [t|] eqn:Et; destruct (dget kb (bonds n)) as [b|] eqn:Eb.
+    + specialize (A6 (k, t) (dget_In _ _ _ Et)). rewrite forallb_forall in A6.
+      specialize (A6 (kb, b) (dget_In _ _ _ Eb)). apply Nat.eqb_eq in A6. exact A6.
+    + apply zcount_0. intros Hin. specialize (A4 (k, t) (dget_In _ _ _ Et)). cbn [fst snd] in A4.
+      rewrite !andb_true_iff in A4. destruct A4 as [_ B3]. rewrite forallb_forall in B3.
+      specialize (B3 kb Hin). apply dhas_In in B3. apply dget_None in Eb. contradiction.
+    + symmetry. apply zcount_0. intros Hin. specialize (A5 (kb, b) (dget_In _ _ _ Eb)). cbn [fst snd] in A5.
+      rewrite !andb_true_iff in A5. destruct A5 as [_ B3]. rewrite forallb_forall in B3.
+      specialize (B3 k Hin). apply dhas_In in B3. apply dget_None in Et. contradiction.
+    + reflexivity.
+  - intros kb. destruct (dget kb (bonds n)) as [b|] eqn:Eb.
+    + specialize (A7 (kb, b) (dget_In _ _ _ Eb)). cbn [fst] in A7.
+      set (L := concat (map (fun kt => legs_dims kb (snd kt)) (tensors n))) in *.
+      exists (hd O L). intros k t ax Hin Hn.
+      specialize (A4 (k, t) Hin). cbn [fst snd] in A4. rewrite !andb_true_iff in A4.
+      destruct A4 as [[_ B2] _]. apply Nat.eqb_eq in B2.
+      destruct (nth_error (t_shape t) ax) as [d|] eqn:Ed.
+      2:{ apply nth_error_None in Ed. assert (ax < length (t_bids t))%nat by (apply nth_error_Some; congruence). lia. }
+      f_equal.
+      assert (Hd : In d L).
+      { unfold L. apply in_concat. exists (legs_dims kb t). split.
+        - apply in_map_iff. exists (k, t). auto.
+        - unfold legs_dims. eapply legs_dims_In; eauto. }
+      destruct L as [|z L']; [destruct Hd|]. cbn [hd].
+      eapply all_eq_nat_spec; [exact A7 | exact Hd | left; reflexivity].
+    + exists O. intros k t ax Hin Hn. exfalso.
+      specialize (A4 (k, t) Hin). cbn [fst snd] in A4. rewrite !andb_true_iff in A4. destruct A4 as [_ B3].
+      rewrite forallb_forall in B3. specialize (B3 kb (nth_error_In _ _ Hn)). apply dhas_In in B3.
+      apply dget_None in Eb. contradiction.
+Qed.
+
+(* ------------------------------------------------------------------ operation sequences *)
+Inductive sop :=
+| SRenT (a c : Z)
+| SRenB (a c : Z)
+| STrans (axes : list nat)
+| SMerge (o : net) (joins : list (nat * nat)) (ordT ordB : list Z).
+
+Definition sstep (n : net) (o : sop) : option net :=
+  match o with
+  | SRenT a c => rename_tensor n a c
+  | SRenB a c => rename_bond n a c
+  | STrans axes => transpose n axes
+  | SMerge o joins ordT ordB => merge n o joins ordT ordB
+  end.
+(** a refused operation (ValueError) leaves the network as it is *)
+Definition apply_op (n : net) (o : sop) : net := match sstep n o with Some n' => n' | None => n end.
+
+(** what the caller has to respect (the code validates none of these):
+    the virtual tensor is not renamed, a transposition is a permutation of all open axes,
+    the second operand of a merge is consistent and joined axes have equal dimension *)
+Definition op_ok (n : net) (o : sop) : Prop :=
+  match o with
+  | SRenT a _ => a <> VT
+  | SRenB _ _ => True
+  | STrans axes => is_perm_of axes n
+  | SMerge o joins _ _ => WF o /\ joins_dim_ok n o joins
+  end.
+Fixpoint guarded (n : net) (ops : list sop) : Prop :=
+  match ops with
+  | [] => True
+  | o :: r => op_ok n o /\ guarded (apply_op n o) r
+  end.
+
+Theorem sstep_WF n o n' : WF n -> op_ok n o -> sstep n o = Some n' -> WF n'.
+Proof.
+  intros [W HV] G H. destruct o as [a c|a c|axes|o joins ordT ordB]; cbn [sstep op_ok] in *.
+  - split; [eapply rename_tensor_WF0; eauto|].
+    destruct (rename_tensor_keys n a c n' W H) as [_ [_ [K _]]]. rewrite K. apply in_or_app. left.
+    apply filter_In. split; [assumption|]. apply negb_true_iff, Z.eqb_neq. congruence.
+  - split; [eapply rename_bond_WF0; eauto|].
+    destruct (rename_bond_keys n a c n' W H) as [_ [_ [_ K]]]. rewrite K. assumption.
+  - split; [eapply transpose_WF0; eauto|].
+    destruct (transpose_spec n axes n' H) as [t [Ht [_ [_ ->]]]]. cbn [tensors].
+    rewrite dkeys_dset_in; assumption.
+  - destruct G as [Wo JD]. apply (merge_WF n o joins ordT ordB n'); [split; assumption | exact Wo | exact JD | exact H].
+Qed.
+
+Theorem apply_op_WF n o : WF n -> op_ok n o -> WF (apply_op n o).
+Proof.
+  intros W G. unfold apply_op. destruct (sstep n o) eqn:E; [eapply sstep_WF; eauto | assumption].
+Qed.
+
+(** from any consistent start, along any sequence *)
+Theorem sequence_WF ops : forall n, WF n -> guarded n ops -> WF (fold_left apply_op ops n).
+Proof.
+  induction ops as [|o ops IH]; intros n W G; [assumption|]. cbn [fold_left]. destruct G as [G1 G2].
+  apply IH; [apply apply_op_WF; assumption | assumption].
+Qed.
+
+Corollary sequence_consistent ops n :
+  WF n -> guarded n ops -> is_consistent (fold_left apply_op ops n) = true.
+Proof. intros W G. apply WF_is_consistent. apply sequence_WF; assumption. Qed.
+
+(** every prefix of the sequence is consistent as well *)
+Corollary sequence_consistent_prefix ops n k :
+  WF n -> guarded n ops -> is_consistent (fold_left apply_op (firstn k ops) n) = true.
+Proof.
+  intros W G. apply sequence_consistent; [assumption|].
+  revert n k W G. induction ops as [|o ops IH]; intros n k W G; destruct k; cbn; auto.
+  destruct G as [G1 G2]. split; [assumption|]. apply IH; [apply apply_op_WF; assumption | assumption].
+Qed.
